@@ -31,4 +31,7 @@ def EWF (ctx : PRef → Option (List (String × Nat))) (h : HModule) : Bool :=
   decide ((h.instances.map (·.name)).Nodup) &&
   h.instances.all (instOK ctx (sigList h))
 
+/-- the other layout of the signal list an exporter may choose: ports, in port order, first -/
+def sigListPF (h : HModule) : List (String × Nat) := (h.ports ++ h.signals).map fun s => (s.name, s.width)
+
 end Hdl21.ExportWF
